@@ -24,6 +24,13 @@ func pAddr(t T) netip.Addr {
 	case strings.HasPrefix(t.Atom, "v4."):
 		n, _ := strconv.Atoi(t.Atom[3:])
 		return netip.AddrFrom4([4]byte{127, 1, byte(n >> 8), byte(n)})
+	case strings.HasPrefix(t.Atom, "m4."):
+		// an IPv4-mapped IPv6 address (what netip.AddrFromSlice gives for a 16-byte net.IP): an IPv6 address
+		n, _ := strconv.Atoi(t.Atom[3:])
+		var a [16]byte
+		a[10], a[11] = 0xff, 0xff
+		a[12], a[13], a[14], a[15] = 127, 1, byte(n>>8), byte(n)
+		return netip.AddrFrom16(a)
 	case strings.HasPrefix(t.Atom, "v6."):
 		n, _ := strconv.Atoi(t.Atom[3:])
 		var a [16]byte
@@ -41,6 +48,9 @@ func tAddr(a netip.Addr) T {
 	case a.Is4():
 		b := a.As4()
 		return term.A(fmt.Sprintf("v4.%d", int(b[2])<<8|int(b[3])))
+	case a.Is4In6():
+		b := a.As16()
+		return term.A(fmt.Sprintf("m4.%d", int(b[14])<<8|int(b[15])))
 	default:
 		b := a.As16()
 		return term.A(fmt.Sprintf("v6.%d", int(b[14])<<8|int(b[15])))
@@ -285,6 +295,21 @@ func init() {
 		}
 		return term.L(out...)
 	}
+	handlers["errhist"] = func(a []T) T {
+		var kinds []string
+		var gaps []time.Duration
+		for _, e := range a[0].Args {
+			kinds = append(kinds, e.Args[0].Atom)
+			n, _ := e.Args[1].Uint(32)
+			gaps = append(gaps, time.Duration(n)*time.Second)
+		}
+		ds := bgp.VerifErrorHistory(kinds, gaps)
+		out := make([]T, len(ds))
+		for i, d := range ds {
+			out[i] = term.N(uint64(d / time.Second))
+		}
+		return term.L(out...)
+	}
 	handlers["herr"] = func(a []T) T {
 		out, _ := a[2].Bool()
 		damped, d := bgp.VerifHandleError(a[0].Atom, uint8(mustUint(a[1], 8)), 0, out)
@@ -298,8 +323,8 @@ func init() {
 // ---- generators ----
 
 func genConfigGrid(g *gen) {
-	kinds := []string{"inv", "v4.1", "v6.1"}
-	for _, rid := range []string{"v4.9", "v6.9", "inv"} {
+	kinds := []string{"inv", "v4.1", "v6.1", "m4.1"}
+	for _, rid := range []string{"v4.9", "v6.9", "m4.9", "inv"} {
 		for _, r := range kinds {
 			for _, l := range kinds {
 				for _, las := range []uint32{0, 1, 65535, 65536, 4294967295} {
@@ -463,6 +488,22 @@ func genBackoff(g *gen) {
 		}
 		g.emit("backoff", term.L(l...))
 	}
+	// histories that mix damping errors with Ceases and transport errors
+	kinds := []string{"damp", "damp", "cease", "io"}
+	hgaps := []int{0, 10, 100, 200, 250, 299, 300, 310}
+	for i := 0; i < g.scale(1500, 30000); i++ {
+		n := 2 + g.r.Intn(7)
+		var evs []T
+		for j := 0; j < n; j++ {
+			k := pick(g, kinds...)
+			if j == 0 && g.r.Intn(2) == 0 {
+				k = "damp"
+			}
+			evs = append(evs, term.App("ev", term.A(k), term.I(pick(g, hgaps...))))
+		}
+		g.emit("errhist", term.L(evs...))
+	}
+	g.emit("errhist", term.L(term.App("ev", term.A("damp"), term.I(0)), term.App("ev", term.A("cease"), term.I(200)), term.App("ev", term.A("io"), term.I(50)), term.App("ev", term.A("damp"), term.I(60))))
 	for code := 0; code < 256; code++ {
 		for _, kind := range []string{"notif", "wrapped"} {
 			for _, out := range []bool{true, false} {
@@ -475,5 +516,11 @@ func genBackoff(g *gen) {
 
 func init() {
 	generators["C20"] = []func(*gen){genConfigGrid, genRegistrySeqs, genRegistryConcurrent}
+	// C14: the router id the OPENs carry — NewServer takes IPv4 router ids only (an IPv4-mapped IPv6 address is not one)
+	generators["C14"] = append(generators["C14"], func(g *gen) {
+		for _, rid := range []string{"v4.9", "v6.9", "m4.9", "m4.1", "inv"} {
+			g.emit("cfg", term.A(rid), term.App("cfg", term.A("v4.1"), term.A("inv"), term.N(1), term.N(1), term.I(90), term.I(179), term.B(true)))
+		}
+	})
 	generators["C12"] = []func(*gen){genBackoff}
 }
